@@ -1,0 +1,3 @@
+//! Session cache hooks: `LruTimeCache` lives in a private module; it is re-exported here. The
+//! read-only dump `LruTimeCache::verif_dump` is defined next to the structure (private fields).
+pub use crate::lru_time_cache::LruTimeCache;
